@@ -59,19 +59,24 @@ THEOREMS = [
     # clause 2b (positive half) and anchor mechanism 4, as far as the facts can say it
     "Lena.C20.exceptions_of_ok",
     # the partial statements of the clauses kept as `_full` definitions (behaves_same_full,
-    # invalid_arguments_reported_full, no_unbound_local_full)
+    # invalid_arguments_reported_full; no_unbound_local_full has no obligation: its reads are listed in the evidence)
     "Lena.C20.behaves_same_partial",
-    "Lena.C20.locals_audited_partial",
+    # clause 1b as far as names go: every function takes the same handlers for undefined-name failures (try/except,
+    # hasattr, getattr with a default) with only its own sub-package imported as after the whole framework was imported
+    "Lena.C20.handlers_order_independent",
+    "Lena.C20.handlers_order_independent_envs",
+    "Lena.C20.callFn_eq_traced",
     # instance: the current working tree, every environment (re-checked by the kernel on every run)
     "Lena.C20.current_tree_resolves",
     "Lena.C20.current_tree_safe",
+    "Lena.C20.current_order_independent",
+    "Lena.C20.current_handlers_order_independent",
     "Lena.C20.all_exported",
     "Lena.C20.current_closures_ok",
     "Lena.C20.current_loaded_within_closure",
     "Lena.C20.current_exceptions_ok",
     "Lena.C20.lena_exceptions_derive",
     "Lena.C20.current_raises_documented",
-    "Lena.C20.current_locals_audited",
 ]
 # definitional unfoldings that pin the transcription, corollaries, glue and lemmas about the state encoding: audited
 # like the others, not counted as obligations of the property
@@ -84,6 +89,13 @@ AUX_THEOREMS = [
     "Lena.C20.uncaught_is_failure",
     "Lena.C20.ext_step",
     "Lena.C20.try_handler_catches",
+    "Lena.C20.try_else_step",
+    "Lena.C20.traceCatch_spec",
+    "Lena.C20.execEvsT_fst",
+    "Lena.C20.execEvsT_prefix",
+    "Lena.C20.execEvsT_no_handler",
+    "Lena.C20.callCaught_nil",
+    "Lena.C20.errsBeq_iff",
     "Lena.C20.raising_skips",
     "Lena.C20.import_done_noop",
     "Lena.C20.gbind_binds",
@@ -93,6 +105,8 @@ AUX_THEOREMS = [
     "Lena.C20.call_keeps_imported",
     "Lena.C20.loaded_after_import",
     "Lena.C20.derivesB_sound",
+    # about the informational list of possibly-unbound local reads (no longer an obligation: see ASSUMPTIONS)
+    "Lena.C20.locals_audited_partial",
     "Lena.C20.State.get_set_same",
     "Lena.C20.State.get_set_other",
     "Lena.C20.State.statusOf_setStatus_same",
@@ -110,25 +124,38 @@ TRUSTED = [
     "AttributeError), validated likewise and on the self-test package harness/c20_zoo.  The general theorems are about this "
     "interpreter: `Safe` is defined through the same `callFn` the check evaluates, so the adequacy of the semantics for "
     "Python rests on the correspondence run, not on the theorems",
-    "the bytecode analyser harness/c20_probe.py (analyse / reachable / cell_states / guard_ranges / raised_classes, ~500 "
-    "lines): it IS the oracle of the ~5 900 function cases -- a second static analysis, independent of the translator "
-    "(bytecode and runtime objects instead of ast), with the same abstraction: ordinary locals are invisible, all loads at "
-    "once; it is trusted not to miss what it claims to check",
+    "the bytecode analyser harness/c20_probe.py (analyse / reachable / cell_states / guard_ranges / split_guarded / "
+    "raised_classes / attribute_probes / import_state_tests, ~750 lines): it IS the oracle of the ~5 900 function cases "
+    "-- a second static analysis, independent of the translator (bytecode and runtime objects instead of ast; the "
+    "handler structure, hasattr/getattr/sys.modules questions and raise statements are read from the ast there too), "
+    "with the same abstraction: ordinary locals are invisible, all loads at once; it is trusted not to miss what it "
+    "claims to check; watch_handlers (sys.monitoring) and describe (module state) observe the real import",
     "CPython 3.12 (interpreter-version tests are decided for it; Python-2 standard-library modules such as "
     "future_builtins are never importable); sys.platform / os.name tests are NOT decided statically: names bound under "
     "them are assumed bound and verified only on the platform the check runs on; which optional third-party modules are "
     "installed is not assumed: it is the environment parameter the theorems quantify over",
     "the allow-list AUDITED_MAYBE_UNBOUND (extract_facts.py): 10 reads of locals that CPython cannot prove bound, each "
-    "looked at by a person, with the reason",
+    "looked at by a person, with the reason -- informational only: reads outside it are listed in the evidence, not judged",
     "JSON line protocol (harness/props/c20.py, drivers/C20.lean)",
 ]
 ASSUMPTIONS = [
     "a call executes every load of the function body in source order (all code paths at once), except that a failure "
-    "inside a `try` whose handler catches it (NameError / AttributeError / ImportError / Exception / bare) runs the "
-    "handler instead; imports inside conditional blocks are not assumed afterwards",
+    "inside a `try` BODY whose handler catches it (NameError / AttributeError / ImportError / Exception / bare) runs the "
+    "handler instead (the rest of the body and the `else:` part are skipped); the `else:` part is not guarded by the "
+    "handlers of its own `try`; a handler that contains a `raise` statement does NOT make a NameError / AttributeError "
+    "harmless (the call still fails because of the undefined name, whatever class is raised in the end: read as "
+    "'fail by referring to a name that is not defined'); `except Exception: log(); return default` around a misspelt "
+    "name is accepted (nothing fails) unless it makes the two interpreters differ; imports inside conditional blocks "
+    "are not assumed afterwards",
     "which locals are followed: locals bound only by import statements, locals bound only by `x = name.a.b` (aliases of "
-    "modules), closure cells.  ORDINARY LOCALS ARE NOT FOLLOWED: an UnboundLocalError is reported only through CPython's "
-    "own flag (LOAD_FAST_CHECK: a read it cannot prove bound) unless the read is audited; a lena module stored in an "
+    "modules), closure cells.  ORDINARY LOCALS ARE NOT FOLLOWED: an UnboundLocalError is reported only when a behaviour "
+    "case exhibits it (a concrete execution).  CPython's own flag (LOAD_FAST_CHECK: a read the compiler cannot prove "
+    "bound) says 'cannot prove', not 'can be unbound': such reads are translated into facts (UnboundFact, compared with "
+    "the bytecode) and those outside the allow-list of reads a person looked at are LISTED IN THE EVIDENCE "
+    "(unaudited_maybe_unbound_reads), never a verdict and no proof obligation -- a harmless rename or a new, perfectly "
+    "fine conditionally-bound local must not alarm (localsOk / locals_audited_partial remain as auxiliary definitions; "
+    "the instance current_locals_audited was removed); the allow-list matches by name, or by count when all the "
+    "possibly-unbound locals of a function have been renamed; a lena module stored in an "
     "attribute, a container or passed as an argument (self._m = lena.flow) becomes opaque for model and oracle alike",
     "module level: names bound on some path only of an if/loop/match whose outcome is not decided statically are assumed "
     "bound (none in the current tree; listed per module in the facts, counted in the evidence); the fresh interpreter "
@@ -150,12 +177,34 @@ ASSUMPTIONS = [
     "outside the statement",
     "clause 1b (same behaviour with only the own sub-package imported) and the positive half of clause 2b (invalid "
     "arguments reported with LenaException subclasses) have NO behaviour model: they are the definitions "
-    "behaves_same_full / invalid_arguments_reported_full in Props/C20.lean, not proved; evidence for 1b is the behaviour "
-    "palette only (its reach is in the evidence: behaviour_function_coverage), so an import-order dependence that is not "
-    "a name failure (`if hasattr(lena, 'output')`, `'lena.output' in sys.modules`) on a path the palette does not reach "
-    "is not detected; for 2b what is proved is about `raise` statements (exceptions_of_ok): builtin exceptions raised by "
-    "Python itself for invalid arguments (TypeError for a wrong call, KeyError of a dict) are observed by the probe and "
-    "NOT judged",
+    "behaves_same_full / invalid_arguments_reported_full in Props/C20.lean, not proved.  What IS checked for 1b, for every "
+    "function of every module `import lena.X` loads (statically, whether or not the behaviour palette reaches it): "
+    "(a) [model + theorem handlers_order_independent + bytecode] the undefined-name failures that the function's own "
+    "handlers swallow -- try/except, hasattr(m, 'lit'), getattr(m, 'lit', default) on a lena module -- are the same with "
+    "only lena.X imported as after the whole framework was imported (a handler / an `if` branch that imports is the "
+    "lazy-import idiom and is exempt); (b) [fresh interpreters only, no model] `'lena.x' in sys.modules` / "
+    "sys.modules.get('lena.x') / sys.modules['lena.x'] with a literal name have the same answer; (c) [fresh "
+    "interpreters only] the handlers of import-time code that catch an undefined-name failure while the modules of "
+    "lena.X are imported (sys.monitoring EXCEPTION_HANDLED) are the same; (d) [fresh interpreters only] every global "
+    "of those modules that some function of its module reads is bound to the same thing (None / number / string by "
+    "value, functions / classes / modules by qualified name, containers by type, length and their elements one level "
+    "deep) -- a global that another sub-package's import rebinds or appends to is import-order-dependent state.  "
+    "(a)-(d) read 'behaves the same' as 'takes the same paths as far as they depend on what has been imported': a "
+    "function that takes a handler in one interpreter only but returns the same either way (an isinstance test "
+    "against a class of a sub-package that is not imported, where no instance can exist) is reported although the "
+    "clause holds -- none in the tree; the lazy-import forms are exempt.  NOT "
+    "detected on paths the palette does not reach: import-order questions asked in other ways (vars(lena), dir(), "
+    "computed attribute names, importlib, sys.modules with a computed key, a module passed through a local / an "
+    "attribute), state kept deeper than one level or in class attributes, and any difference that is not about what "
+    "has been imported.  For 2b what is proved is about `raise` statements (exceptions_of_ok), including `raise v` "
+    "where the local v is bound only by `v = X(...)`: builtin exceptions raised by Python itself for invalid arguments "
+    "(TypeError for a wrong call, KeyError of a dict) are observed by the probe and NOT judged",
+    "judgement of the adversary round (notes/adversary_C20.md): all nine candidates are inside the statement -- a "
+    "swallowed AttributeError on a lena module that exists only in one of the two interpreters (1, 4), a read in the "
+    "`else:` part of a try (2), a NameError behind `except Exception: ... raise` (3), a circular-import guard at "
+    "module level whose outcome depends on the import order (5), getattr(lena, 'math', None) / 'lena.math' in "
+    "sys.modules (6, 9), a builtin ValueError raised through a local variable (7), a module global of lena.context "
+    "rebound by the import of lena.math (8)",
     "closure cells are checked at the end of the statement that creates the inner function (the earliest call); reads "
     "in comprehensions of the owner itself are not checked",
 ]
@@ -168,7 +217,9 @@ RULE = ("translator coverage is asserted on every run (every Name/Attribute/impo
         "jinja2 present / absent, produced in fresh interpreters with sys.modules[name] = None): "
         "exhaustive: every entry point (each of the 9 sub-packages alone, and all together) x every function/method/lambda "
         "of every module that entry loads (one case each: bytecode verdict vs model verdict), one case per entry for "
-        "import / star import / __all__ / sys.modules / all module namespaces, and one behaviour case per public name "
+        "import / star import / __all__ / sys.modules / all module namespaces / import-time handlers / module state "
+        "(the last two compared between `only lena.X` and `all`), per function the failures its handlers swallow and "
+        "its sys.modules questions (compared likewise, and with the model's trace), and one behaviour case per public name "
         "(own sub-package only vs whole framework, ~35 argument tuples and the element methods on 9 values / 5 flows). "
         "thorough adds seeded random argument tuples. Non-trivial: a function case whose body loads at least one global, an "
         "entry case, a behaviour case in which at least one call returned.")
@@ -468,6 +519,13 @@ def _gen_cases(ctx):
         "never_entered": never[:400],
         "note": "impl_line_coverage of common.py is empty for C20: the real code runs in fresh interpreters "
                 "(sub-processes), this is the measurement made there"}})
+    # reads of locals that CPython cannot prove bound (LOAD_FAST_CHECK): informational.  The audited ones carry the
+    # reason a person gave; the others are listed here and are NOT a verdict (an UnboundLocalError is reported when a
+    # behaviour case exhibits it)
+    notes.append({"unaudited_maybe_unbound_reads": sorted(
+        f"{u['mod']}.{u['fn']}: {u['var']}" for u in facts["maybe_unbound"] if not u["audited"]),
+        "audited_maybe_unbound_reads": len([u for u in facts["maybe_unbound"] if u["audited"]]),
+        "note": "possible UnboundLocalError according to CPython's definite-assignment analysis only; not judged"})
     notes.append({"exhaustive_per_dimension": {
         "entry points x environments x functions x global loads / attribute chains / raise statements (static clause)": True,
         "advertised names (__all__) x environments": True,
@@ -485,6 +543,42 @@ def _gen_cases(ctx):
     return cases
 
 
+def _caught_key(c):
+    return (c.get("kind"), c.get("name"), c.get("on"))
+
+
+def _order_dependence(pkg, env, own):
+    """what `import lena.X` does differently when the whole framework is imported: handlers of import-time code that
+    catch an undefined-name failure in one interpreter only, and module globals (of the modules `import lena.X` loads)
+    that are bound to something else afterwards and that some function of their module reads"""
+    whole = _probe("static", "all", env)
+    if own.get("import") != "ok" or whole.get("import") != "ok":
+        return {"handlers": [], "state": []}
+    loaded = set(own["loaded"])
+    key = lambda c: (c["module"], c["func"], c["line"], c["type"])
+    a = sorted(key(c) for c in own.get("import_caught", []))
+    b = sorted(key(c) for c in whole.get("import_caught", []) if c["module"] in loaded)
+    handlers = []
+    if a != b:
+        msgs = {key(c): c["msg"] for c in own.get("import_caught", []) + whole.get("import_caught", [])}
+        for k in sorted(set(a) ^ set(b)) or sorted(set(a) | set(b)):
+            handlers.append({"module": k[0], "func": k[1], "line": k[2], "type": k[3], "msg": msgs.get(k, ""),
+                             "own": a.count(k), "whole": b.count(k)})
+    state = []
+    readers = {}
+    for fk, ent in (own.get("funcs") or {}).items():
+        mod, q, _ = fk.rsplit("|", 2)
+        for g in ent.get("greads", []):
+            readers.setdefault((mod, g), []).append(q)
+    for mod in sorted(loaded):
+        so, sw = own.get("state", {}).get(mod, {}), whole.get("state", {}).get(mod, {})
+        for name in sorted(so):
+            if name in sw and so[name] != sw[name] and readers.get((mod, name)):
+                state.append({"module": mod, "name": name, "own": so[name], "whole": sw[name],
+                              "read_by": sorted(set(readers[(mod, name)]))[:3]})
+    return {"handlers": handlers, "state": state}
+
+
 def run_impl(case):
     kind = case["kind"]
     if kind == "harness-error":
@@ -496,15 +590,28 @@ def run_impl(case):
                 "source_counts": _source_counts(tree), "translator_coverage": _translator_coverage(tree)}
     if kind == "entry":
         pr = _probe("static", case["entry"], case["env"], tree)
-        return {"import": pr["import"], "star": pr["star"], "loaded": pr["loaded"], "ns": pr["ns"],
-                "loaded_by_star": pr.get("loaded_by_star", []), "exc_classes": pr.get("exc_classes", {})}
+        res = {"import": pr["import"], "star": pr["star"], "loaded": pr["loaded"], "ns": pr["ns"],
+               "loaded_by_star": pr.get("loaded_by_star", []), "exc_classes": pr.get("exc_classes", {}),
+               "import_caught": pr.get("import_caught", [])}
+        if tree == "repo" and case["entry"] != "all":
+            res["order"] = _order_dependence(case["entry"], case["env"], pr)
+        return res
     if kind == "func":
         pr = _probe("static", case["entry"], case["env"], tree)
         ent = pr["funcs"].get(f"{case['module']}|{case['func']}|{case['line']}")
         if ent is None:
             return {"present": False, "import": pr["import"] if pr["import"] != "ok" else None}
-        return {"present": True, "loads": ent["loads"], "problems": ent["problems"], "forked": ent["forked"],
-                "greads": ent.get("greads", [])}
+        res = {"present": True, "loads": ent["loads"], "problems": ent["problems"], "forked": ent["forked"],
+               "greads": ent.get("greads", []), "caught": ent.get("caught", []),
+               "import_state": ent.get("import_state", [])}
+        if case["entry"] != "all":
+            # the same function after the whole framework has been imported (clause 1b)
+            whole = _probe("static", "all", case["env"], tree)
+            went = (whole.get("funcs") or {}).get(f"{case['module']}|{case['func']}|{case['line']}")
+            if whole.get("import") == "ok" and went is not None:
+                res["whole_caught"] = went.get("caught", [])
+                res["whole_import_state"] = went.get("import_state", [])
+        return res
     if kind == "behaviour":
         own = _probe("behaviour", case["pkg"], case["env"])
         full = _probe("behaviour-full", case["pkg"], case["env"])
@@ -548,6 +655,15 @@ def compare(case, res, replies):
             return "layoutOk is false for the generated facts"
         if m.get("ext") != facts["ext"] or m.get("envs") != facts["envs"]:
             return f"environments of the Lean facts {m.get('ext')} {m.get('envs')} differ from the translator's"
+        if tree == "repo":
+            # the model's verdict on handlers (orderIndependent, per environment) against the bytecode's
+            for k, env in enumerate(facts["envs"]):
+                if not _testable(env) or k >= len(m.get("orderIndependent", [])):
+                    continue
+                dep = _handler_dependences(env)
+                if dep is not None and bool(m["orderIndependent"][k]) != (not dep):
+                    return (f"orderIndependent = {m['orderIndependent'][k]} in the model (environment {env}), but the "
+                            f"bytecode finds these functions catching different failures in the two interpreters: {dep[:3]}")
         if m.get("allDynamic"):
             return (f"__all__ of {m['allDynamic']} is computed: the advertised names are not known statically and the "
                     f"theorems about them say nothing (write __all__ as a literal list)")
@@ -659,6 +775,14 @@ def compare(case, res, replies):
             return f"possibly-unbound locals that are not audited: model {mu}, bytecode {pu}"
         res = dict(res, problems=[p for p in res["problems"]
                                   if p["kind"] not in ("BuiltinRaise", "NonLenaRaise", "MaybeUnbound")])
+        if m.get("tracedAgrees") is False:
+            return "the traced interpreter (execEvsT) and callFn disagree on this function"
+        if r[0] == "ok" and not res["problems"]:
+            mc = sorted((c.get("kind"), (c.get("name") or "").replace(extract_facts.LOCAL_SUFFIX, ""), c.get("on"))
+                        for c in m.get("caught", []) if c.get("kind") in ("NameError", "AttributeError"))
+            pc = sorted(_caught_key(c) for c in res.get("caught", []) if c.get("kind") in ("NameError", "AttributeError"))
+            if mc != pc:
+                return f"failures caught by the function's own handlers: model {mc}, bytecode {pc}"
         bad_model = [x for x in r if x != "ok" and x != "not-callable"]
         if r[0] == "not-callable":
             return "the model does not consider the function callable after the import of the entry"
@@ -675,6 +799,27 @@ def compare(case, res, replies):
             return f"bytecode: every load resolves; model: {bad_model[0]}"
         return None
     return None
+
+
+def _handler_dependences(env):
+    """functions whose own handlers catch different undefined-name failures with only a sub-package imported and with
+    the whole framework imported, according to the bytecode probes (None: the probes cannot say)"""
+    facts = _facts()
+    whole = _probe("static", "all", env)
+    if whole.get("import") != "ok":
+        return None
+    out = []
+    for pkg in facts["subpackages"]:
+        own = _probe("static", pkg, env)
+        if own.get("import") != "ok":
+            return None
+        for fk, ent in (own.get("funcs") or {}).items():
+            went = (whole.get("funcs") or {}).get(fk)
+            if went is None or any(p["kind"] != "MaybeUnbound" for p in ent["problems"] + went["problems"]):
+                continue        # a failing function is the other check's business (the trace ends at the failure)
+            if sorted(map(_caught_key, ent.get("caught", []))) != sorted(map(_caught_key, went.get("caught", []))):
+                out.append(f"{pkg}: {fk}")
+    return out
 
 
 def _undefined(summ):
@@ -712,21 +857,34 @@ def _oracle(case, res):
                 return f"{pkg}.__all__ advertises names that do not exist: {s['missing']}"
             if not s["ok"]:
                 return f"`from {pkg} import *` fails: {s['exc']['type']}: {s['exc']['msg']}"
+        # clause 1b at import time: what `import lena.X` does must not depend on what else has been imported
+        order = res.get("order") or {}
+        for h in order.get("handlers", []):
+            where = f"{h['module']} line {h['line']}" + ("" if h["func"] == "<module>" else f" ({h['func']})")
+            one, other = (f"only {e} imported", "the whole framework imported") if h["own"] > h["whole"] else \
+                ("the whole framework imported", f"only {e} imported")
+            return (f"import-time code behaves differently with only {e} imported and with the whole framework imported: "
+                    f"with {one} a handler at {where} catches {h['type']}: {h['msg']} -- with {other} it does not "
+                    f"(what the module defines depends on the import order)")
+        for st in order.get("state", []):
+            return (f"{st['module']}.{st['name']} is bound to {st['own']} with only {e} imported and to {st['whole']} "
+                    f"after the whole framework has been imported (another sub-package's import changes it), and "
+                    f"{st['module']}.{st['read_by'][0]} reads it: that element behaves differently in the two interpreters")
         return None
     if kind == "func":
-        if res.get("present") and res["problems"]:
+        # a read of a local that CPython cannot prove bound (MaybeUnbound) is a hint, never a verdict: it is listed in
+        # the evidence; an UnboundLocalError is reported when a concrete execution (behaviour case) exhibits it
+        problems = [p for p in res["problems"] if p["kind"] != "MaybeUnbound"] if res.get("present") else []
+        if problems:
             where = f"{case['module']}, function {case['func']} (line {case['line']})"
             whats = []
-            for p in res["problems"][:4]:
+            for p in problems[:4]:
                 if p["kind"] == "BuiltinRaise":
                     what = (f"line {p['line']}: raises the builtin {p['name']} although lena.core documents a LenaException "
                             f"subclass that wraps it (invalid arguments and missing keys are reported with the documented "
                             f"LenaException subclasses)")
                 elif p["kind"] == "NonLenaRaise":
                     what = f"line {p['line']}: raises {p['name']}, a lena class that does not derive from LenaException"
-                elif p["kind"] == "MaybeUnbound":
-                    what = (f"local variable '{p['name']}' may be unbound when it is read (CPython cannot prove it bound and "
-                            f"the read is not among the audited ones): possible UnboundLocalError, a NameError")
                 elif p["kind"] == "NameError" and p.get("after_call_of"):
                     what = (f"global name '{p['name']}' is deleted by a call of {p['after_call_of']} (`global {p['name']}; "
                             f"del {p['name']}`): not defined when this function is called afterwards")
@@ -749,6 +907,31 @@ def _oracle(case, res):
             what = "; ".join(whats)
             how = "with the whole framework imported" if case["entry"] == "all" else f"with only {case['entry']} imported"
             return f"{how}: {where}: {what}"
+        if res.get("present") and "whole_caught" in res:
+            # clause 1b: the function must take the same handlers in both interpreters
+            where = f"{case['module']}, function {case['func']} (line {case['line']})"
+            own_c = sorted(map(_caught_key, res.get("caught", [])))
+            whole_c = sorted(map(_caught_key, res["whole_caught"]))
+            if own_c != whole_c:
+                only_own = [c for c in res.get("caught", []) if _caught_key(c) not in whole_c]
+                only_whole = [c for c in res["whole_caught"] if _caught_key(c) not in own_c]
+                c, one, other = (only_own[0], f"only {case['entry']} imported", "the whole framework imported") \
+                    if only_own else ((only_whole or res["whole_caught"])[0], "the whole framework imported",
+                                      f"only {case['entry']} imported")
+                what = (f"module '{c.get('on')}' has no attribute '{c['name']}'" if c["kind"] == "AttributeError"
+                        else f"{c['kind']}: '{c['name']}'")
+                via = {"hasattr": "a hasattr(...) question", "getattr3": "a getattr(..., default) question"}.get(
+                    c.get("probe"), "a handler of the function")
+                return (f"{where} behaves differently with only {case['entry']} imported and with the whole framework "
+                        f"imported: with {one}, line {c.get('line')}: {what}, swallowed by {via}; with {other} the name "
+                        f"resolves and the other path is taken")
+            a = sorted((t["what"], t["line"], t["value"]) for t in res.get("import_state", []))
+            b = sorted((t["what"], t["line"], t["value"]) for t in res.get("whole_import_state", []))
+            if a != b:
+                t = next(x for x in a if x not in b)
+                return (f"{where} behaves differently with only {case['entry']} imported and with the whole framework "
+                        f"imported: line {t[1]} asks {t[0]}, which is {t[2]} with only {case['entry']} imported and "
+                        f"{not t[2]} after the whole framework has been imported")
         return None
     if kind == "behaviour":
         for k in ("own_fatal", "full_fatal"):
@@ -792,7 +975,7 @@ def search_cases(sctx):
 def nontrivial(case, res):
     kind = case["kind"]
     if kind == "func":
-        return bool(res.get("present") and (res["loads"] or res["problems"]))
+        return bool(res.get("present") and (res["loads"] or [p for p in res["problems"] if p["kind"] != "MaybeUnbound"]))
     if kind == "behaviour":
         return any(isinstance(v, str) and not v.startswith("exc:") and v != "timeout" and k != "kind"
                    for k, v in (res.get("own") or {}).items())
@@ -804,9 +987,16 @@ def classify(case, res):
     if kind == "func":
         if not res.get("present"):
             return ["func:absent"]
-        labs = ["func:unresolved" if res["problems"] else ("func:resolves" if res["loads"] else "func:no-global-loads")]
+        hard = [p for p in res["problems"] if p["kind"] != "MaybeUnbound"]
+        labs = ["func:unresolved" if hard else ("func:resolves" if res["loads"] else "func:no-global-loads")]
+        if len(hard) != len(res["problems"]):
+            labs.append("func:reads-a-possibly-unbound-local-not-in-the-audited-list")
         if res.get("forked"):
             labs.append("func:imports-at-call-time")
+        if res.get("caught"):
+            labs.append("func:handler-swallows-a-name-failure")
+        if res.get("import_state"):
+            labs.append("func:asks-sys.modules")
         return labs
     if kind == "behaviour":
         d = res.get("own") or {}
@@ -844,9 +1034,11 @@ LEVEL_TEXT = ("Lean 4 theorems about an interpreter for Python's import machiner
               "interpreters (sys.modules, all module namespaces, every function's bytecode), and every public element is "
               "exercised with only its own sub-package imported and with the whole framework imported.")
 LEVEL_NOTE = ("The general theorems are about the interpreter of Model/C20.lean; that this interpreter is adequate for "
-              "CPython is validated by the correspondence run (and the self-test package), not proved.  No theorem covers "
-              "clause 1b (behaviour) or which inputs are 'invalid arguments' (clause 2b): kept as _full definitions, "
-              "tested by a fixed behaviour palette only.  "
+              "CPython is validated by the correspondence run (and the self-test package), not proved.  Clause 1b (behaviour) is "
+              "proved only as far as names go (handlers_order_independent: every function swallows the same "
+              "undefined-name failures in both interpreters); the rest of it and which inputs are 'invalid arguments' "
+              "(clause 2b) are kept as _full definitions, tested by observation of the import (handlers, module state) "
+              "and a fixed behaviour palette.  "
               "Trusted: Lean kernel (+ propext, Classical.choice, Quot.sound), the translator and the abstract import "
               "semantics as validated by the exhaustive correspondence run, CPython 3.12 + installed distributions. "
               "Outside the model: names created dynamically (globals()[...] in flow/zip.py), attributes of non-module "
